@@ -225,8 +225,24 @@ func runCase(r *hx.Run, c hx.Case) {
 		cert = &ks.chain
 	}
 	crand.Reader = realRand
-	if err := m.SignWithTLSCertificate(cert); err != nil {
-		r.Fail(c.ID, "harness-sign-setup", err.Error())
+	// both ways of configuring the signer: a tls.Certificate, or key pair + certificate (+ intermediate) separately
+	var serr error
+	if (len(c.ID)+len(hdrvar))%2 == 0 {
+		serr = m.SignWithTLSCertificate(cert)
+	} else {
+		leafX, perr := x509.ParseCertificate(cert.Certificate[0])
+		if perr != nil {
+			r.Fail(c.ID, "harness-sign-setup", perr.Error())
+			return
+		}
+		var interX *x509.Certificate
+		if inter {
+			interX = ks.inter
+		}
+		serr = m.SignWithKeypair(cert.PrivateKey, leafX, interX)
+	}
+	if serr != nil {
+		r.Fail(c.ID, "harness-sign-setup", serr.Error())
 		return
 	}
 	if strings.HasPrefix(hdrvar, "fail:") {
